@@ -97,6 +97,17 @@ def main():
     os.makedirs(d, exist_ok=True)
     shutil.copy(patch, os.path.join(d, "patch.diff"))
     shutil.copy(demo, os.path.join(d, "demo.rs"))
+    # keep the first replay file of the detection as a regression case
+    for p, c in meta["checks"].items():
+        for l in c.get("lines", []):
+            m = re.match(r"VIOLATION property=\S+ replay=(\S+)", l)
+            if m and os.path.exists(m.group(1)):
+                ext = ".replay" if m.group(1).endswith(".replay") else os.path.splitext(m.group(1))[1]
+                shutil.copy(m.group(1), os.path.join(d, "detected" + ext))
+                meta["saved_replay"] = "detected" + ext
+                break
+        if "saved_replay" in meta:
+            break
     notes = os.path.join(var, "notes.md")
     if os.path.exists(notes):
         meta["needs_to_manifest"] = open(notes).read()[:3000]
